@@ -521,6 +521,9 @@ def engine_answer(sql):
     if core.startswith("rows "):
         n = int(core[5:].strip() or 0)
         return f"rows x {n}" + "".join(f" 1 {hx('r' + str(i))}" for i in range(n))
+    if core.startswith("desc "):
+        n = int((core[5:].split() or ["0"])[0])
+        return f"rows x {n}" + "".join(f" 1 {hx('r' + str(i))}" for i in reversed(range(n)))
     if core.startswith("fail"):
         return "error " + hx("sql failed boom")
     if core.startswith("err "):
@@ -544,14 +547,27 @@ UPD_RECORDS = [
     ("query error", "select {n}", ""),
     ("query T retry 2 backoff 0s", "select {n}", "----\nnope\n"),
     ("statement ok retry 2 backoff 0s", "fail {n}", ""),
+    # the database's order is not the sorted one: a sort mode / threshold in force shows
+    ("query T", "desc 3 {n}", "----\nr2\nr1\nr0\n"),
+    ("query T", "desc 3 {n}", "----\nr0\nr1\nr2\n"),
+    ("query T nosort", "desc 4 {n}", "----\nr3\nr2\nr1\nr0\n"),
+]
+
+# records whose SQL changes under `control substitution on` (escapes only: no variables)
+SUBST_RECORDS = [
+    ("statement ok", "ins back\\\\slash {n}", ""),
+    ("query T", "select a\\\\b {n}", "----\na\\\\b {n}\n"),
 ]
 
 
-def gen_cli_tree(rnd):
+def gen_cli_tree(rnd, multi=0):
     """root.slt + included files (same stem, different extension; nested); SQL texts are engine
-    directives and unique per record"""
+    directives and unique per record.  `multi` > 0: that many further root files (no includes) whose
+    first records set runner state (sort mode, threshold, substitution), plus records that are
+    sensitive to such state; returned as a third component"""
     ctr = [0]
     sqls = []
+    pool = UPD_RECORDS + (SUBST_RECORDS * 2 if multi else [])
 
     def records(k):
         out = ""
@@ -567,7 +583,7 @@ def gen_cli_tree(rnd):
                 out += rnd.choice(["control sortmode rowsort\n\n", "hash-threshold 2\n\n", "onlyif external\n", "skipif external\n",
                                    "connection c1\n", "sleep 1ms\n\n", "subtest s\n\n"])
             else:
-                hdr, sql, block = rnd.choice(UPD_RECORDS)
+                hdr, sql, block = rnd.choice(pool)
                 ctr[0] += 1
                 n, m, cnt = ctr[0] * 10 + 1, ctr[0] * 10 + 2, rnd.randint(0, 4)
                 q = sql.format(n=n, m=m, c=cnt) + f" #{ctr[0]}" if not sql.startswith("rows") else sql.format(n=n, m=m, c=cnt)
@@ -582,6 +598,9 @@ def gen_cli_tree(rnd):
     contents = {}
     for nm in reversed(names):
         body = records(rnd.randint(0, 4))
+        if multi and rnd.random() < 0.4:
+            # a halt inside an included file ends the whole run, not just that file
+            body = records(rnd.randint(0, 2)) + "halt\n\n" + records(rnd.randint(0, 2))
         if nm == "inc/a.slt" and "inc/a.inc" in names:
             body += "include a.inc\n\n" + records(rnd.randint(0, 2))
         contents[nm] = body
@@ -589,7 +608,7 @@ def gen_cli_tree(rnd):
     for nm in names:
         if nm == "inc/a.inc":
             continue
-        root += f"include {nm}\n\n" + records(rnd.randint(0, 2))
+        root += f"include {nm}\n\n" + records(rnd.randint(1 if multi else 0, 2))
     # endings: the CLI's own copy of the trailing-newline loop
     def ending(t):
         c = rnd.randint(0, 5)
@@ -599,7 +618,19 @@ def gen_cli_tree(rnd):
             return t + "\n" * rnd.randint(1, 20)
         return t
     tree = [(nm, ending(contents[nm])) for nm in names] + [("root.slt", ending(root))]
-    return tree, sqls
+    if not multi:
+        return tree, sqls
+    extra = []
+    for i in range(multi):
+        body = ""
+        for _ in range(rnd.randint(0, 2)):
+            body += rnd.choice(["control sortmode rowsort\n\n", "control sortmode valuesort\n\n", "hash-threshold 2\n\n",
+                                "control substitution on\n\n", "hash-threshold 3\n\n"])
+        body += records(rnd.randint(1, 4))
+        nm = f"m{i}.slt"
+        tree.append((nm, ending(body)))
+        extra.append(nm)
+    return tree, sqls, extra
 
 
 def upd_case(op, tree, sqls, k=None):
@@ -613,10 +644,13 @@ def upd_case(op, tree, sqls, k=None):
     return s
 
 
-def run_upd(cwd, tree, mode, kill_at=0):
+def run_upd(cwd, tree, mode, kill_at=0, stale=False):
     for p, c in tree:
         os.makedirs(os.path.dirname(os.path.join(cwd, p)) or cwd, exist_ok=True)
         open(os.path.join(cwd, p), "w").write(c)
+        if stale:
+            # what an earlier, interrupted run of a longer version of the file left behind
+            open(os.path.join(cwd, p + ".temp"), "w").write("# stale line of an interrupted run\n" * 300)
     env = {"FAKE_SIGKILL_AT": str(kill_at)} if kill_at else {}
     r = run_cli(cwd, [mode, "root.slt"], env, timeout=25)
     after = []
@@ -696,6 +730,16 @@ def profile_cliupd(rnd, n, thorough, out):
                     oracle = "C06|a second --override changed the files again (not a fixed point)"
         out.add(upd_case("cliupdate", tree, sqls), line, f"cliupd set={si} override", oracle)
         shutil.rmtree(cwd, ignore_errors=True)
+        # the same over stale temp files: the result must not depend on them
+        cwd = fresh_dir(f"upd_{si}")
+        r, after_s, left_s, line_s, _ = run_upd(cwd, tree, "--override", stale=True)
+        oracle = None
+        if r.timeout:
+            oracle = "C08|--override did not terminate within 25 s"
+        elif left_s:
+            oracle = f"C08|debris after --override over stale temp files: {left_s}"
+        out.add(upd_case("cliupdate", tree, sqls), line_s, f"cliupd set={si} override over stale temp files", oracle)
+        shutil.rmtree(cwd, ignore_errors=True)
         # SIGKILL when the engine receives its k-th request, for every k
         ks = list(range(1, nreq + 1))
         if not thorough and len(ks) > 4:
@@ -708,6 +752,120 @@ def profile_cliupd(rnd, n, thorough, out):
                 if c != old and c != fin:
                     oracle = f"C08|after SIGKILL at request {k} file {p} holds neither its old nor its new content"
             out.add(upd_case("cliupdate", tree, sqls, k - 1), line, f"cliupd set={si} override kill_at={k}/{nreq}", oracle)
+            shutil.rmtree(cwd, ignore_errors=True)
+
+
+def multi_case(mode, tree, roots, sqls):
+    s = f"climulti {mode} 0 {hx(chr(9))} 0 0 {len(tree)}" + "".join(f" {hx(p)} {hx(c)}" for p, c in tree)
+    s += f" {len(roots)}" + "".join(" " + hx(r) for r in roots)
+    uniq = []
+    for q in sqls:
+        if q not in uniq:
+            uniq.append(q)
+            # the text the engine sees when `control substitution on` is in force (escapes only)
+            q2 = q.replace("\\\\", "\\")
+            if q2 != q:
+                uniq.append(q2)
+    # regex tables (the overridden tree holds inline patterns written by the updater: escaped literal
+    # texts, for which Python's `re` agrees with the regex crate)
+    cands = []
+    for _, c in tree:
+        for ln in c.split("\n"):
+            t = ln.split()
+            if len(t) >= 3 and t[0] in ("statement", "query") and t[1] == "error":
+                for cand in (" ".join(t[2:]), " ".join(t[2:t.index("retry")]) if "retry" in t[2:] else None):
+                    if cand and cand not in cands:
+                        cands.append(cand)
+    errs = []
+    for q in uniq:
+        a = engine_answer(q)
+        if a.startswith("error "):
+            e = unhx(a.split(" ")[1])
+            if e not in errs:
+                errs.append(e)
+    valid, matches = [], []
+    for cand in cands:
+        try:
+            rx = re.compile(cand)
+            valid.append((cand, 1))
+            for e in errs:
+                matches.append((cand, e, 1 if rx.search(e) else 0))
+        except re.error:
+            valid.append((cand, 0))
+    s += f" {len(valid)}" + "".join(f" {hx(c)} {v}" for c, v in valid)
+    s += f" {len(matches)}" + "".join(f" {hx(c)} {hx(e)} {v}" for c, e, v in matches)
+    s += f" db {hx('external')} 0 {len(uniq)}" + "".join(f" {hx(q)} 1 {engine_answer(q)}" for q in uniq)
+    s += " rows x 0 0 exit 0 x"
+    return s
+
+
+def run_multi(cwd, tree, roots, mode):
+    for p, c in tree:
+        os.makedirs(os.path.dirname(os.path.join(cwd, p)) or cwd, exist_ok=True)
+        open(os.path.join(cwd, p), "w").write(c)
+    args = (["--override"] if mode == "override" else []) + roots
+    r = run_cli(cwd, args, timeout=40)
+    after = []
+    for p, _ in tree:
+        try:
+            after.append(open(os.path.join(cwd, p), "rb").read().decode("utf-8", "replace"))
+        except FileNotFoundError:
+            after.append("")
+    sess, tr = {}, []
+    for e in r.events:
+        k = sess.setdefault(e["pid"], len(sess))
+        if e["ev"] == "connect":
+            tr.append(f"make {k} 1")
+        elif e["ev"] == "sql":
+            tr.append(f"run {k} x{e['args'][1]}")
+    stats = []
+    if mode == "run":
+        # one block of stdout per root, in order
+        pos = []
+        for root in roots:
+            m = re.search(r"(?m)^" + re.escape(root) + r"\s+\.\. \[(OK|FAILED|BEGIN)\]", r.stdout)
+            pos.append(m.start() if m else -1)
+        for i, root in enumerate(roots):
+            st = pos[i]
+            if st < 0:
+                stats.append("none")
+                continue
+            later = [p for p in pos if p > st]
+            block = r.stdout[st:min(later) if later else len(r.stdout)]
+            if "[FAILED]" not in block:
+                stats.append("ok")
+            else:
+                m = re.search(r"\bat (\S+?):(\d+)", block)
+                stats.append(f"err {m.group(2)}" if m else "err ?")
+    else:
+        stats = ["done" for _ in roots]
+    line = f"R {len(stats)} " + " ".join(stats) + f" F {len(tree)}" + "".join(f" {hx(p)} {hx(c)}" for (p, _), c in zip(tree, after))
+    line += " T " + str(len(tr)) + "".join(" " + x for x in tr)
+    return r, after, line
+
+
+def profile_climulti(rnd, n, thorough, out):
+    """several root files in one (serial) invocation: check mode and --override"""
+    for si in range(n):
+        tree, sqls, extra = gen_cli_tree(rnd, multi=rnd.randint(1, 3))
+        roots = ["root.slt"] + extra
+        rnd.shuffle(roots)
+        overridden = None
+        for mode in ("run", "override", "rerun"):
+            # `rerun`: check mode on the overridden tree, whose expectations are (mostly) right, so that
+            # the run gets past the first records: halt, includes and state-setting records all count
+            t = tree if mode != "rerun" else overridden
+            if t is None:
+                continue
+            cwd = fresh_dir(f"multi_{si}")
+            r, after, line = run_multi(cwd, t, roots, "override" if mode == "override" else "run")
+            oracle = None
+            if r.timeout:
+                oracle = f"C02|the CLI did not terminate within 40 s ({mode})"
+            if mode == "override" and not r.timeout:
+                overridden = [(p, c) for (p, _), c in zip(tree, after)]
+            out.add(multi_case("override" if mode == "override" else "run", t, roots, sqls), line,
+                    f"climulti set={si} mode={mode} roots={roots}", oracle)
             shutil.rmtree(cwd, ignore_errors=True)
 
 
@@ -749,7 +907,7 @@ def replay_line(line):
     return "not-replayable (schedule-dependent run: see the recorded observation in the replay file)"
 
 
-PROFILES = {"cli18": profile_cli18, "cli16": profile_cli16, "cli17": profile_cli17, "cli19": profile_cli19, "cliupd": profile_cliupd}
+PROFILES = {"cli18": profile_cli18, "cli16": profile_cli16, "cli17": profile_cli17, "cli19": profile_cli19, "cliupd": profile_cliupd, "climulti": profile_climulti}
 
 
 def main():
